@@ -5,4 +5,9 @@ import (
 	"vharness/hx"
 )
 
-func main() { hx.Main(c10.Gen) }
+func main() {
+	hx.Main(func(r *hx.Run) {
+		c10.Gen(r)
+		c10.GenSockets(r)
+	})
+}
